@@ -10,15 +10,17 @@ TABLE = [
     ("C09", r"solout", r"exact_zero", ["event_function_scale"]),
     ("C08", r"solout", r"exact_zero", ["event_function_scale"]),
     ("C08", r"solout", r"events\.|process\.|detect\.", ["events_multi_in_step"]),
-    ("C05", r"solout", r"teval\.", ["tiny_time_scale", "teval_terminal"]),
+    ("C05", r"solout", r"teval\.|support", ["teval_backward_endpoints", "tiny_time_scale", "teval_terminal"]),
     ("C03", r"dispatch_A", r"zero_length|skipped", ["tiny_time_scale", "zero_length_dense"]),
     ("C06", r"dispatch", r".*", ["zero_length_dense", "sol_at_every_sample"]),
     ("C06", r"cont_R", r".*", ["tiny_time_scale", "sol_at_every_sample"]),
+    ("C06", r"solout", r".*", ["dense_up_to_terminal_event", "sol_at_every_sample", "event_interpolant_right_end"]),
     ("C03", r"dispatch_R", r"first_output|handler", ["first_step_sign_and_overshoot"]),
     ("C11", r"dispatch_R", r"first_output|handler", ["first_step_sign_and_overshoot"]),
     ("C03", r"solout_R", r"steps\.", ["short_steps_reported", "first_step_sign_and_overshoot"]),
     ("C18", r"solout_R", r"steps\.", ["short_steps_reported"]),
     ("C03", r"rk4_R", r"span\.|support", ["rk4_overshoot"]),
+    ("C03", r"radau_R|bdf_R|dp5_R|dp8_R|rk23_R", r"span\.|status\.", ["first_step_rejected_then_success", "first_step_reaches_xend"]),
     ("C03", r".*_R", r"span\.|hinit|support", ["span_hinit_probe", "rk4_overshoot"]),
     ("C11", r".*_R", r"step\.|hinit", ["step_bounds"]),
     ("C11", r".*", r".*", ["step_bounds", "first_step_reaches_xend"]),
@@ -38,13 +40,13 @@ TABLE = [
     ("C17", r".*", r".*", ["matrix_dense_model"]),
     ("C16", r"lucx", r"max_tracks|maximal|multipliers", ["complex_multiplier_modulus", "lu_small"]),
     ("C16", r".*", r".*", ["lu_small"]),
-    ("C15", r".*", r".*", ["default_mass", "banded_jacobian_storage"]),
-    ("C05", r".*", r".*", ["teval_terminal"]),
+    ("C15", r".*", r".*", ["default_mass", "banded_jacobian_storage", "banded_mass_storage"]),
+    ("C05", r".*", r".*", ["teval_terminal", "teval_backward_endpoints"]),
     ("C08", r"solout", r"brent|events\.time|span\.", ["brent_stays_in_bracket"]),
     ("C03", r"solout", r"brent|event_function|events\.time", ["brent_stays_in_bracket"]),
     ("C09", r".*", r"brent", ["brent_stays_in_bracket"]),
-    ("C09", r".*", r".*", ["events_order_independent", "teval_terminal"]),
-    ("C10", r".*", r".*", ["teval_terminal", "events_multi_in_step"]),
+    ("C09", r".*", r".*", ["events_order_independent", "events_with_late_teval", "teval_terminal"]),
+    ("C10", r".*", r".*", ["teval_terminal", "events_multi_in_step", "events_with_late_teval"]),
     ("C12", r".*", r".*", ["output_options"]),
     ("C13", r".*", r"err\.|norm\.", ["duplication_invariance"]),
     ("C13", r".*", r"step\.|hinit|dir", ["time_reflection", "pow2_scaling"]),
